@@ -30,6 +30,17 @@ pub(crate) fn pu64_decimal(s: &[u8], n: usize) -> u64 {
     v
 }
 
+/// A CONTINUATION frame carrying `n` octets of (arbitrary, zeroed) header-block fragment — what `Headers::encode`
+/// returns when the block did not fit; used by kani/codec__framed_write.rs to build "a header block is unfinished".
+/// (inherent fn: module `frame::headers` is private, `frame::Continuation` is re-exported.)
+impl Continuation {
+    pub(crate) fn vk_new(id: StreamId, n: usize) -> Continuation {
+        let mut hpack = BytesMut::with_capacity(n);
+        hpack.resize(n, 0);
+        Continuation { stream_id: id, header_block: EncodingHeaderBlock { hpack } }
+    }
+}
+
 #[cfg(kani)]
 mod proofs {
     use super::*;
